@@ -61,6 +61,12 @@ CLAIMS = {
          "DESIGN.md §3 C02 and C09",
          "Trusted: HAL kernels; asserted rank preconditions.",
          "shared limb/column coverage analysis + call-set comparison of assign twins", True),
+
+ "C12": ("other",
+         "Structural scratch accounting on MIR. SC-1: for the 438 (operation, companion) pairs whose size query mirrors the operation's nesting of takes (found through the entry guards or by name, frozen in rules/sc1_pairs.json), the scratch chain of the operation is simulated on every path (takes accumulate, consumers need their own declared companion, closures and un-companioned helpers inlined) and every demand monomial must be contained - as a multiset of size-atom kinds, nested queries expanded - in a monomial of the companion's max-plus expression on every compatible path; HAL queries stay uninterpreted so the verdict covers every backend. SC-2: entry guards name the operation's own (family) companion. SC-3: on every path the first effective use of an object taken from scratch initialises it (path-sensitive typestate over 200+ take sites, closures followed). SC-4: takes that cannot be 64-byte multiples followed by another consumer must be padded by the companion. SC-5: only the scratch carver builds scratch views from raw bytes. Argument-level arithmetic of the size queries and pairs not in mirror form are not decided.",
+         "DESIGN.md §3 C12",
+         "Trusted: modular assumption (each callee meets its own declaration), monotone size queries; mirror-form table frozen from the reference tree.",
+         "max-plus symbolic accounting over MIR paths + path-sensitive typestate of scratch temporaries", True),
 }
 NOT_BUILT = {}
 
